@@ -78,7 +78,13 @@ class DiscreteTimeInterpreter(TimeInterpreter):
         self.sampling_tolerance = tolerance
 
     def get_sampling_period(self):
-        return self.sampling_period * self.U[self.sampling_period_unit]
+        # in ns; a period given as a float means the decimal number the caller wrote
+        # (0.067 s is 67 ms, although 0.067 * 1e9 is 67000000.00000001 in floating point)
+        period = Fraction(str(self.sampling_period)) * self.U[self.sampling_period_unit]
+        return int(period) if period.denominator == 1 else float(period)
+
+    def get_sampling_period_fraction(self):
+        return Fraction(str(self.sampling_period)) * self.U[self.sampling_period_unit]
 
     def get_sampling_frequency(self):
         return 1e9 * 1/self.get_sampling_period()
@@ -119,7 +125,7 @@ class DiscreteTimeInterpreter(TimeInterpreter):
         b = b * self.ast.U[b_unit]
         e = e * self.ast.U[e_unit]
 
-        sp = Fraction(self.sampling_period * self.ast.U[self.sampling_period_unit])
+        sp = self.get_sampling_period_fraction()
         b = b / sp
         e = e / sp
 
